@@ -37,7 +37,7 @@ ASSUMPTIONS = [
     "gradient exactness is demanded for linear functions only (as stated); for general multilinear functions adaptive == static is demanded",
 ]
 PROBES = ["dim1", "dim2", "dim3", "point_on_vertex", "point_on_grid_line", "point_on_upper_boundary", "point_on_lower_boundary", "batch_revisits_cell",
-          "warm_batch", "partial_batch", "gradient_query", "linear_function", "shifted_base_point", "negative_indices"]
+          "warm_batch", "partial_batch", "gradient_query", "linear_function", "shifted_base_point", "negative_indices", "query_buffer_reused_in_place"]
 
 
 def make_function(ch, d, linear):
@@ -105,6 +105,7 @@ def run_history_c41(ch, tr: Trace) -> None:
     tol = 1e-9 * scale
     tr.emit("config", d, "dyadic" if dyadic else "float", low.tolist(), h.tolist(), npt.tolist(), shift.tolist(), coefs)
     visited_cells: set = set()
+    buf = [None]  # the caller's query buffer, possibly reused in place between calls
 
     def draw_points(n):
         cols = []
@@ -172,6 +173,14 @@ def run_history_c41(ch, tr: Trace) -> None:
         n = ch.rng(1, 5)
         x, fl = draw_points(n)
         arg = x  # points are always passed as a (parameters x points) array
+        if buf[0] is not None and buf[0].shape == x.shape and ch.flag(1, 2):
+            # the caller reuses its query buffer: same ndarray object, updated in place (x += dx in a solver loop)
+            buf[0][...] = x
+            arg = buf[0]
+            tr.probe("query_buffer_reused_in_place")
+        else:
+            buf[0] = x.copy()
+            arg = buf[0]
         before = adaptive._table._coords.shape[1]
         try:
             ya = adaptive.interpolate(arg)
@@ -202,16 +211,22 @@ def run_history_c41(ch, tr: Trace) -> None:
         n = ch.rng(1, 4)
         x, fl = draw_points(n)
         axis = ch.draw(d)
+        if buf[0] is not None and buf[0].shape == x.shape and ch.flag(1, 2):
+            buf[0][...] = x
+            tr.probe("query_buffer_reused_in_place")
+        else:
+            buf[0] = x.copy()
+        xq = buf[0]
         before = adaptive._table._coords.shape[1]
         # A derivative at a point exactly on a grid line of the differentiated axis is one-sided and, for a piecewise
         # linear interpolant of a multilinear function, still exact; on the upper box boundary the base cell does not exist.
         try:
-            ga = adaptive.gradient(x, axis)
+            ga = adaptive.gradient(xq, axis)
         except Exception as e:  # noqa: BLE001
             raise Violation("adaptive_answers_every_point_in_box", f"adaptive.gradient({x.T.tolist()}, axis={axis}) raised {e!r}", "adaptive_gradient_raised")
         after = adaptive._table._coords.shape[1]
         try:
-            gs = static.gradient(x, axis)
+            gs = static.gradient(xq, axis)
         except Exception as e:  # noqa: BLE001
             on_upper = bool(dyadic and np.any(x == high.reshape((-1, 1))))
             raise Violation("static_answers_every_point_in_box", f"static.gradient({x.T.tolist()}, axis={axis}) raised {e!r}", "static_gradient_raised_on_upper_boundary" if on_upper else "static_gradient_raised")
